@@ -103,6 +103,16 @@ func (p *Prog) NormCmp(v ssa.Value, truth bool) *Cmp {
 	if neg {
 		truth = !truth
 	}
+	if call, isCall := base.(*ssa.Call); isCall {
+		// a condition hidden in an expression function: compare what the function returns
+		if fn, ret := p.exprFunc(call); ret != nil && len(ret.Results) == 1 {
+			if c := p.NormCmp(ret.Results[0], truth); c != nil {
+				c.L, c.R = p.substParams(call, fn, c.L), p.substParams(call, fn, c.R)
+				return c
+			}
+		}
+		return nil
+	}
 	bo, ok := base.(*ssa.BinOp)
 	if !ok {
 		return nil
